@@ -10,21 +10,46 @@ Intrusive lists (`k` < 8 list ids, `e` < 16 element ids):
 * `M e2 e`   `new elem(std::move(*e))`       * `A a b`   `*a = std::move(*b)`
 * `LM k2 k`  `new list(std::move(*k))`       * `LA k k2` `*k = std::move(*k2)`
 * `LD k`     `delete list k`
+* `LS k k2`  `std::swap(*k, *k2)`            * `ES a b`  `std::swap(*a, *b)`   (the generic `std::swap`: move-construct a
+  temporary, two move assignments, destroy the temporary — list id 7 / element id 15 are reserved for it; `k = k2`, `a = b`: self-swap)
+
+Iterator objects (`i`, `j` < 8 slots; a slot holds a `list::iterator` or a `list::const_iterator`):
+
+* `IB i k` / `IE i k`   `it_i = list_k.begin()` / `.end()`       * `CB i k` / `CE i k`  the same through `list const &`
+* `IP i e` / `CP i e`   `it_i = iterator{&elem_e}` / `const_iterator{…}`   * `IN i` / `CN i`  `it_i = iterator{}` / `const_iterator{}`
+* `IC i j`  `it_i = it_j` (copy)       * `IX i`  drop the slot
+* `I+ i` `I- i`  `++it_i`, `--it_i`    * `Ip i` `Im i`  `it_i++`, `it_i--` (prints ` ret=<position of the returned iterator>`)
+* `IS i j`  `it_i.swap(it_j)` (same constness only; `i = j`: self-swap)
+* `I= i j`  prints ` eq=<it_i == it_j> ne=<it_i != it_j>` (same constness only)
+* `I* i`    prints ` deref=<element>` (`*it` and `it.operator->()` must agree)
+
+A slot whose node is destroyed (`d`, `LD`) is dropped on both sides (the caller may not use it any more).
 
 dump: for every live list `Lk=<forward walk>|<backward walk>|<empty()>`, then for every live node
-`name:prev,next`.
+`name:prev,next`, then for every iterator slot `i<n>=<node name | null>[c]`.
 
-Signals (`s` < 8, connections `x` < 16; callbacks `f`, unregister ids `u`, combiner ids `c` numbers):
+Signals (`s` < 8, connections `x` < 16; callbacks `f`, unregister ids `u`, combiner ids `c` numbers).  Four
+instantiations: `S` = `object<int(int), unregister::base>`, `P` = `object<int(int), signal::base>`,
+`V` = `object<void(int), unregister::base>`, `W` = `object<void(int), signal::base>`:
 
-* `SN s c`        `new object<int(int), unregister::base>(combiner_c)`
-* `PN s c`        `new object<int(int), signal::base>(combiner_c)`      (no unregister functions)
-* `SC x s f u`    `x = s.connect(callback_f, unregister_u)`   (`PC x s f` for the plain base)
-* `SX x`          `x.reset()`
-* `SM s2 s`, `SA s s2`, `SD s`   move-construct, move-assign, destroy
-* `call s init arg`
+* `SN s c` / `PN s c` / `VN s` / `WN s`     construct
+* `SC x s f u` / `PC x s f` / `VC x s f u` / `WC x s f`   `holder_x = optional_auto_connection{s.connect(callback_f [, unregister_u])}`
+* `SX h`          `holder_h = optional_auto_connection{}`       (the connection it holds dies)
+* `SM s2 s`, `SA s s2`, `SD s`   move-construct, move-assign, destroy;  `SS s s2`  `std::swap(s, s2)` (temporary: signal id 7)
+* `call s init arg` (int signals), `vcall s arg` (void signals)
+* owners: `HA a b` `holder_a = std::move(holder_b)`; `HW a b` `std::swap(holder_a, holder_b)`;
+  `KP c h` `container_c.push_back(std::move(*holder_h))`; `KO c h` `holder_h = std::move(container_c.back()); pop_back()`;
+  `KE c i` `container_c.erase(begin() + i)`; `KC c` `container_c.clear()`; `KA c c2` `container_c = std::move(container_c2)`
+  (`c` < 4 containers = owners 16..19 of the model; holders = owners 0..15)
 
-dump: for every live signal `Ss=<invoked callbacks>:<result>|<empty()>` (called with init 1, arg 2),
-then `unreg=<u>:<count>,…`.
+* callbacks with effects: `AN f` callback `f` does nothing besides returning its value (default); `AR f h` it also resets
+  `holder_h`; `AK f c` it clears `container_c`; `AC f h s f2 u` it connects callback `f2` (unregister `u` where the base has
+  one) to signal `s` into `holder_h` if that holder is free and `s` alive.  The effects happen only inside
+  `rcall s init arg` / `rvcall s arg` (prints `<invoked>:<result | v>` and then the dump of the state the call left behind).
+
+dump: for every live signal `Ss=<invoked callbacks>:<result | v>|<empty()>|<callbacks met iterating connections() backwards>`
+(called with init 1, arg 2), then `unreg=<u>:<count>,…`; operations that can destroy connections append
+` saw=` + for every unregister function that ran, in order, `u<id>@<what every live signal would invoke from inside it>` joined by `;`.
 
 The suffix ` #spec=…` is the judge: `ok` when the abstract state `Spec.run` predicts exactly the walks
 the model produced, `-` once an operation was not `Spec.valid` (cannot happen: lifetimes are checked first), `BAD` otherwise (a `BAD` is a violation, see props/c11.py).
@@ -34,6 +59,8 @@ open Fcppt.Proto Fcppt.C11
 
 def maxLists : Nat := 8
 def maxElems : Nat := 16
+def maxIters : Nat := 8
+def maxConts : Nat := 4
 def walkCap : Nat := 64
 
 def nodeName : Node → String
@@ -48,57 +75,106 @@ def walkStr (r : M (List Node)) : String :=
   | .error .fuel => "overrun"
   | .error f => "fault:" ++ f.name
 
+structure ItSlot where
+  cur : Iter
+  isConst : Bool
+
 structure St where
-  sig : Sig.State := Sig.State.empty
+  hold : Hold.State := Hold.State.empty
   spec : Option Spec.Rings := some []
   dead : Bool := false
-  plain : List Nat := []         -- signals created with `PN` (bookkeeping only: which harness table)
+  fam : List (Nat × Nat) := []        -- signal id → 0 `S`, 1 `P`, 2 `V`, 3 `W` (bookkeeping: which C++ type)
+  its : List (Nat × ItSlot) := []     -- iterator slots, sorted by slot number
+  acts : List (Nat × List Nat) := []  -- callback id → [kind, params…] (1 reset owner, 2 connect h s f2 u)
+
+def St.sig (st : St) : Sig.State := st.hold.sig
+def St.store (st : St) : Store := st.hold.sig.store
 
 def allNodes : List Node := (List.range maxLists).map Node.head ++ (List.range maxElems).map Node.elem
 
 def cbFn (f arg : Nat) : Nat := (f * 7 + arg) % 1000
 def combFn (c acc x : Nat) : Nat := (acc * 31 + x + c) % 1000003
 
-def listDump (σ : Store) : String :=
+def iterName (σ : Store) : Iter → String
+  | none => "null"
+  | some n => if σ.live n then nodeName n else "?"
+
+def itsDump (σ : Store) (its : List (Nat × ItSlot)) : List String :=
+  its.map fun (i, s) => s!"i{i}={iterName σ s.cur}{if s.isConst then "c" else ""}"
+
+def listDump (σ : Store) (its : List (Nat × ItSlot)) : String :=
   let ls := (List.range maxLists).filter (fun k => σ.live (.head k))
   let a := ls.map fun k =>
     let e := match listEmpty σ (.head k) with | .ok b => b01 b | .error f => "fault:" ++ f.name
     s!"L{k}={walkStr (walk σ (.head k) walkCap)}|{walkStr (walkBack σ (.head k) walkCap)}|{e}"
   let nm := fun n => if σ.live n then nodeName n else "?"      -- a dangling link has no name
   let b := (allNodes.filter σ.live).map fun n => s!"{nodeName n}:{nm (σ.prev n)},{nm (σ.next n)}"
-  " ".intercalate (a ++ b)
+  " ".intercalate (a ++ b ++ itsDump σ its)
+
+def famOf (st : St) (s : Nat) : Nat := ((st.fam.find? (·.1 == s)).map (·.2)).getD 0
+def famVoid (f : Nat) : Bool := f ≥ 2
+def famUnreg (f : Nat) : Bool := f % 2 == 0
+
+def idsStr (l : List Nat) : String := if l.isEmpty then "-" else natList l
 
 def callStr (st : Sig.State) (s init arg : Nat) : String :=
   match Sig.call cbFn combFn st s walkCap init arg with
-  | .ok (fs, r) => s!"{if fs.isEmpty then "-" else natList fs}:{r}"
+  | .ok (fs, r) => s!"{idsStr fs}:{r}"
   | .error .fuel => "overrun"
   | .error .emptyDeref => "nocomb"
   | .error f => "fault:" ++ f.name
 
-def sigDump (st : Sig.State) : String :=
+def vcallStr (st : Sig.State) (s : Nat) : String :=
+  match Sig.callVoid st s walkCap with
+  | .ok fs => s!"{idsStr fs}:v"
+  | .error .fuel => "overrun"
+  | .error f => "fault:" ++ f.name
+
+def anyCallStr (fam : List (Nat × Nat)) (st : Sig.State) (s : Nat) : String :=
+  if famVoid (((fam.find? (·.1 == s)).map (·.2)).getD 0) then vcallStr st s else callStr st s 1 2
+
+/-- the callbacks of the connections met when iterating `connections()` from `end()` backwards -/
+def bwdStr (st : Sig.State) (s : Nat) : String :=
+  match walkBack st.store (.head s) walkCap with
+  | .ok ns =>
+    match ns.mapM (fun n => match n with
+        | .elem x => (st.conn x).map (·.callback)
+        | .head _ => none) with
+    | some fs => idsStr fs
+    | none => "fault:oob"
+  | .error .fuel => "overrun"
+  | .error f => "fault:" ++ f.name
+
+def sigDump (fam : List (Nat × Nat)) (st : Sig.State) : String :=
   let ss := (List.range maxLists).filter (fun s => st.store.live (.head s))
   let a := ss.map fun s =>
     let e := match listEmpty st.store (.head s) with | .ok b => b01 b | .error f => "fault:" ++ f.name
-    s!"S{s}={callStr st s 1 2}|{e}"
+    s!"S{s}={anyCallStr fam st s}|{e}|{bwdStr st s}"
   let us := (List.range 64).filter (fun u => st.unregCount u > 0)
   let b := "unreg=" ++ (if us.isEmpty then "-" else ",".intercalate (us.map fun u => s!"{u}:{st.unregCount u}"))
   " ".intercalate (a ++ [b])
 
 /-- what every live signal would invoke in state `st` (the harness asks this from inside the
 unregister function, i.e. between `unlink()` and `~base()` of the dying connection) -/
-def sigCalls (st : Sig.State) : String :=
+def sigCalls (fam : List (Nat × Nat)) (st : Sig.State) : String :=
   let ss := (List.range maxLists).filter (fun s => st.store.live (.head s))
-  if ss.isEmpty then "-" else ",".intercalate (ss.map fun s => s!"S{s}={callStr st s 1 2}")
+  if ss.isEmpty then "-" else ",".intercalate (ss.map fun s => s!"S{s}={anyCallStr fam st s}")
 
-def sawSuffix (st : Sig.State) : Sig.Op → String
-  | .disconnect x =>
-    match st.conn x with
-    | some ⟨_, some _⟩ =>
-      match baseUnlink st.store (.elem x) with
-      | .ok σ => " saw=" ++ sigCalls { st with store := σ }
-      | .error f => " saw=fault:" ++ f.name
-    | _ => " saw=-"
-  | _ => ""
+/-- the `saw` entries of the deaths `xs` (in order), starting in state `st` -/
+def sawEntries (fam : List (Nat × Nat)) : Sig.State → List Nat → List String
+  | _, [] => []
+  | st, x :: xs =>
+    let e := match st.conn x with
+      | some ⟨_, some u⟩ =>
+        match baseUnlink st.store (.elem x) with
+        | .ok σ => [s!"u{u}@{sigCalls fam { st with store := σ }}"]
+        | .error f => [s!"u{u}@fault:{f.name}"]
+      | _ => []
+    match Sig.step st (.disconnect x) with
+    | .ok st' => e ++ sawEntries fam st' xs
+    | .error _ => e
+
+def sawSuffix (l : List String) : String := " saw=" ++ (if l.isEmpty then "-" else ";".intercalate l)
 
 /-- the judge: does the abstract state predict the model's walks and liveness? -/
 def specAgrees (σ : Store) (R : Spec.Rings) : Bool :=
@@ -112,7 +188,7 @@ def specAgrees (σ : Store) (R : Spec.Rings) : Bool :=
 def specSuffix (st : St) : String :=
   match st.spec with
   | none => " #spec=-"
-  | some R => if specAgrees st.sig.store R then " #spec=ok" else " #spec=BAD"
+  | some R => if specAgrees st.store R then " #spec=ok" else " #spec=BAD"
 
 def parseListOp (t : List String) : Option Op :=
   match t with
@@ -127,69 +203,302 @@ def parseListOp (t : List String) : Option Op :=
   | ["LD", k] => do let k ← k.toNat?; guard (k < maxLists); pure (.delList k)
   | _ => none
 
-/-- signal operation + whether it addresses the plain (`P…`) family -/
-def parseSigOp (t : List String) : Option (Sig.Op × Bool) :=
+/-- signal operation (other than the owner operations) + the family it addresses (`none`: any) -/
+def parseSigOp (t : List String) : Option (Sig.Op × Option Nat) :=
   match t with
-  | ["SN", s, c] => do let s ← s.toNat?; let c ← c.toNat?; guard (s < maxLists ∧ c < 64); pure (.newSig s c, false)
-  | ["PN", s, c] => do let s ← s.toNat?; let c ← c.toNat?; guard (s < maxLists ∧ c < 64); pure (.newSig s c, true)
-  | ["SC", x, s, f, u] => do
+  | ["SN", s, c] => do let s ← s.toNat?; let c ← c.toNat?; guard (s < maxLists ∧ c < 64); pure (.newSig s (some c), some 0)
+  | ["PN", s, c] => do let s ← s.toNat?; let c ← c.toNat?; guard (s < maxLists ∧ c < 64); pure (.newSig s (some c), some 1)
+  | ["VN", s] => do let s ← s.toNat?; guard (s < maxLists); pure (.newSig s none, some 2)
+  | ["WN", s] => do let s ← s.toNat?; guard (s < maxLists); pure (.newSig s none, some 3)
+  | [o, x, s, f, u] => do
+    let fm ← (if o = "SC" then some 0 else if o = "VC" then some 2 else none)
     let x ← x.toNat?; let s ← s.toNat?; let f ← f.toNat?; let u ← u.toNat?
-    guard (x < maxElems ∧ s < maxLists ∧ f < 100 ∧ u < 64); pure (.connect x s f (some u), false)
-  | ["PC", x, s, f] => do
+    guard (x < maxElems ∧ s < maxLists ∧ f < 100 ∧ u < 64); pure (.connect x s f (some u), some fm)
+  | [o, x, s, f] => do
+    let fm ← (if o = "PC" then some 1 else if o = "WC" then some 3 else none)
     let x ← x.toNat?; let s ← s.toNat?; let f ← f.toNat?
-    guard (x < maxElems ∧ s < maxLists ∧ f < 100); pure (.connect x s f none, true)
-  | ["SX", x] => do let x ← x.toNat?; guard (x < maxElems); pure (.disconnect x, false)
-  | ["SM", s2, s] => do let s2 ← s2.toNat?; let s ← s.toNat?; guard (s2 < maxLists ∧ s < maxLists); pure (.moveCtor s2 s, false)
-  | ["SA", s, s2] => do let s ← s.toNat?; let s2 ← s2.toNat?; guard (s < maxLists ∧ s2 < maxLists); pure (.moveAssign s s2, false)
-  | ["SD", s] => do let s ← s.toNat?; guard (s < maxLists); pure (.delSig s, false)
+    guard (x < maxElems ∧ s < maxLists ∧ f < 100); pure (.connect x s f none, some fm)
+  | ["SM", s2, s] => do let s2 ← s2.toNat?; let s ← s.toNat?; guard (s2 < maxLists ∧ s < maxLists); pure (.moveCtor s2 s, none)
+  | ["SA", s, s2] => do let s ← s.toNat?; let s2 ← s2.toNat?; guard (s < maxLists ∧ s2 < maxLists); pure (.moveAssign s s2, none)
+  | ["SD", s] => do let s ← s.toNat?; guard (s < maxLists); pure (.delSig s, none)
   | _ => none
 
-/-- signals of the two families are different C++ types: an operation may not mix them -/
-def familyOk (st : St) : Sig.Op → Bool → Bool
-  | .newSig _ _, _ => true
-  | .connect _ s _ _, p => st.plain.contains s == p
-  | .moveCtor _ _, _ => true
-  | .moveAssign s s2, _ => st.plain.contains s == st.plain.contains s2
+/-- signals of different families are different C++ types: an operation may not mix them -/
+def familyOk (st : St) : Sig.Op → Option Nat → Bool
+  | .connect _ s _ _, some f => famOf st s == f
+  | .moveAssign s s2, _ => famOf st s == famOf st s2
   | _, _ => true
 
-def advanceSpec (st : St) (op : Op) : Option Spec.Rings :=
-  match st.spec with
+/-- the owner operations (`Hold.Op`s, in order) a line stands for; `none`: not an owner line or refused -/
+def parseHoldOps (st : St) (t : List String) : Option (List Hold.Op) :=
+  let own := st.hold.own
+  match t with
+  | ["SX", h] => do let h ← h.toNat?; guard (h < maxElems ∧ (own h).length = 1); pure [.release h 0]
+  | ["HA", a, b] => do
+    let a ← a.toNat?; let b ← b.toNat?
+    guard (a < maxElems ∧ b < maxElems ∧ (own b).length = 1)
+    -- self-move-assignment of an `optional<unique_ptr>` leaves the connection alone
+    pure (if a = b then [] else [.clear a, .transfer b 0 a])
+  | ["HW", a, b] => do let a ← a.toNat?; let b ← b.toNat?; guard (a < maxElems ∧ b < maxElems); pure [.swap a b]
+  | ["KP", c, h] => do
+    let c ← c.toNat?; let h ← h.toNat?
+    guard (c < maxConts ∧ h < maxElems ∧ (own h).length = 1); pure [.transfer h 0 (16 + c)]
+  | ["KO", c, h] => do
+    let c ← c.toNat?; let h ← h.toNat?
+    guard (c < maxConts ∧ h < maxElems ∧ (own h).isEmpty ∧ !(own (16 + c)).isEmpty)
+    pure [.transfer (16 + c) ((own (16 + c)).length - 1) h]
+  | ["KE", c, i] => do
+    let c ← c.toNat?; let i ← i.toNat?
+    guard (c < maxConts ∧ i < (own (16 + c)).length); pure [.release (16 + c) i]
+  | ["KC", c] => do let c ← c.toNat?; guard (c < maxConts); pure [.clear (16 + c)]
+  | ["KA", c, c2] => do
+    let c ← c.toNat?; let c2 ← c2.toNat?
+    guard (c < maxConts ∧ c2 < maxConts ∧ c ≠ c2); pure [.clear (16 + c), .swap (16 + c) (16 + c2)]
+  | _ => none
+
+def advanceSpec (spec : Option Spec.Rings) (op : Op) : Option Spec.Rings :=
+  match spec with
   | some R => if Spec.valid R op then some (Spec.step R op) else none
   | none => none
+
+def setIt (its : List (Nat × ItSlot)) (i : Nat) (s : ItSlot) : List (Nat × ItSlot) :=
+  let l := its.filter (·.1 != i)
+  (l.filter (·.1 < i)) ++ [(i, s)] ++ (l.filter (·.1 > i))
+
+def getIt (its : List (Nat × ItSlot)) (i : Nat) : Option ItSlot := (its.find? (·.1 == i)).map (·.2)
+
+/-- the iterator lines; `none`: not an iterator line.  `some (st', extra)`: new state, text after the dump;
+`some none`… refusal is `bad-op` -/
+def handleIter (st : St) (t : List String) : Option (Option (St × String)) :=
+  let σ := st.store
+  let slot := fun (s : String) => (s.toNat?).bind fun i => if i < maxIters then some i else none
+  let liveCur := fun (s : ItSlot) => match s.cur with | some n => σ.live n | none => false
+  let ok := fun (its : List (Nat × ItSlot)) (extra : String) => some (some ({ st with its := its }, extra))
+  match t with
+  | [o, i, k] =>
+    if o = "IB" ∨ o = "IE" ∨ o = "CB" ∨ o = "CE" then
+      match slot i, k.toNat? with
+      | some i, some k =>
+        if k < maxLists ∧ σ.live (.head k) then
+          let c := o = "CB" ∨ o = "CE"
+          if o = "IB" ∨ o = "CB" then
+            match listBegin σ (.head k) with
+            | .ok it => ok (setIt st.its i ⟨it, c⟩) ""
+            | .error _ => some none
+          else ok (setIt st.its i ⟨listEnd (.head k), c⟩) ""
+        else some none
+      | _, _ => some none
+    else if o = "IP" ∨ o = "CP" then
+      match slot i, k.toNat? with
+      | some i, some e =>
+        if e < maxElems ∧ σ.live (.elem e) then ok (setIt st.its i ⟨iterAt (.elem e), o = "CP"⟩) "" else some none
+      | _, _ => some none
+    else if o = "IC" then
+      match slot i, slot k with
+      | some i, some j => match getIt st.its j with
+        | some s => ok (setIt st.its i s) ""
+        | none => some none
+      | _, _ => some none
+    else if o = "IS" then
+      match slot i, slot k with
+      | some i, some j => match getIt st.its i, getIt st.its j with
+        | some a, some b =>
+          if a.isConst == b.isConst then ok (setIt (setIt st.its i b) j a) "" else some none
+        | _, _ => some none
+      | _, _ => some none
+    else if o = "I=" then
+      match slot i, slot k with
+      | some i, some j => match getIt st.its i, getIt st.its j with
+        | some a, some b =>
+          if a.isConst == b.isConst then ok st.its s!" eq={b01 (iterEqual a.cur b.cur)} ne={b01 (!iterEqual a.cur b.cur)}"
+          else some none
+        | _, _ => some none
+      | _, _ => some none
+    else none
+  | [o, i] =>
+    if o = "IN" ∨ o = "CN" then
+      match slot i with
+      | some i => ok (setIt st.its i ⟨iterDefault, o = "CN"⟩) ""
+      | none => some none
+    else if o = "IX" then
+      match slot i with
+      | some i => if (getIt st.its i).isSome then ok (st.its.filter (·.1 != i)) "" else some none
+      | none => some none
+    else if o = "I+" ∨ o = "I-" ∨ o = "Ip" ∨ o = "Im" then
+      match slot i with
+      | some i => match getIt st.its i with
+        | some s =>
+          if liveCur s then
+            if o = "I+" then match iterIncrement σ s.cur with
+              | .ok it => ok (setIt st.its i { s with cur := it }) ""
+              | .error _ => some none
+            else if o = "I-" then match iterDecrement σ s.cur with
+              | .ok it => ok (setIt st.its i { s with cur := it }) ""
+              | .error _ => some none
+            else if o = "Ip" then match iterPostInc σ s.cur with
+              | .ok (r, it) => ok (setIt st.its i { s with cur := it }) s!" ret={iterName σ r}"
+              | .error _ => some none
+            else match iterPostDec σ s.cur with
+              | .ok (r, it) => ok (setIt st.its i { s with cur := it }) s!" ret={iterName σ r}"
+              | .error _ => some none
+          else some none
+        | none => some none
+      | none => some none
+    else if o = "I*" then
+      match slot i with
+      | some i => match getIt st.its i with
+        | some s => match iterDeref σ s.cur with
+          | .ok e => ok st.its s!" deref=e{e}"
+          | .error _ => some none
+        | none => some none
+      | none => some none
+    else none
+  | _ => none
+
+def withDump (d : String) : String := if d.isEmpty then "" else " " ++ d
 
 def handle (st : St) (t : List String) : St × String :=
   if t = ["reset"] then ({}, "ok") else
   if st.dead then (st, "dead") else
   match parseListOp t with
   | some op =>
-    if !lifetimeOk st.sig.store op then (st, "bad-op") else
-    match step st.sig.store op with
+    if !lifetimeOk st.store op then (st, "bad-op") else
+    match step st.store op with
     | .ok σ =>
-      let st' := { st with sig := { st.sig with store := σ }, spec := advanceSpec st op }
-      (st', "ok" ++ (if (listDump σ).isEmpty then "" else " " ++ listDump σ) ++ specSuffix st')
+      let its := match op with
+        | .delElem e => st.its.filter fun p => p.2.cur != some (.elem e)
+        | .delList k => st.its.filter fun p => p.2.cur != some (.head k)
+        | _ => st.its
+      let st' := { st with hold := { st.hold with sig := { st.sig with store := σ } }, spec := advanceSpec st.spec op, its := its }
+      (st', "ok" ++ withDump (listDump σ its) ++ specSuffix st')
     | .error f => ({ st with dead := true }, "fault:" ++ f.name)
+  | none =>
+  match handleIter st t with
+  | some none => (st, "bad-op")
+  | some (some (st', extra)) => (st', "ok" ++ withDump (listDump st'.store st'.its) ++ extra ++ specSuffix st')
   | none =>
   match parseSigOp t with
   | some (op, p) =>
-    if !Sig.lifetimeOk st.sig op || !familyOk st op p then (st, "bad-op") else
-    match Sig.step st.sig op with
-    | .ok s' =>
-      let plain := match op with
-        | .newSig s _ => if p then s :: st.plain.erase s else st.plain.erase s
-        | .moveCtor s2 s => if st.plain.contains s then s2 :: st.plain.erase s2 else st.plain.erase s2
-        | _ => st.plain
-      let st' := { st with sig := s', spec := advanceSpec st op.toList, plain := plain }
-      (st', "ok " ++ sigDump s' ++ sawSuffix st.sig op ++ specSuffix st')
+    let hop : Hold.Op := match op with
+      | .connect x s f u => .connect x x s f u          -- the new connection goes into holder `x`
+      | op => .sig op
+    let holderFree := match op with
+      | .connect x _ _ _ => (st.hold.own x).isEmpty
+      | _ => true
+    if !Sig.lifetimeOk st.sig op || !familyOk st op p || !holderFree then (st, "bad-op") else
+    match Hold.step st.hold hop with
+    | .ok h' =>
+      let fam := match op, p with
+        | .newSig s _, some f => (s, f) :: st.fam.filter (·.1 != s)
+        | .moveCtor s2 s, _ => (s2, famOf st s) :: st.fam.filter (·.1 != s2)
+        | _, _ => st.fam
+      let st' := { st with hold := h', spec := advanceSpec st.spec op.toList, fam := fam }
+      (st', "ok " ++ sigDump fam h'.sig ++ specSuffix st')
+    | .error f => ({ st with dead := true }, "fault:" ++ f.name)
+  | none =>
+  match parseHoldOps st t with
+  | some hops =>
+    -- run the owner operations in order; collect what the unregister functions see
+    let r := hops.foldl (fun (acc : Except Fault (Hold.State × Option Spec.Rings × List String)) hop =>
+      match acc with
+      | .error f => .error f
+      | .ok (h, spec, saw) =>
+        let ds := Hold.deaths h hop
+        match Hold.step h hop with
+        | .ok h' => .ok (h', ds.foldl (fun sp x => advanceSpec sp (.delElem x)) spec, saw ++ sawEntries st.fam h.sig ds)
+        | .error f => .error f) (.ok (st.hold, st.spec, []))
+    match r with
+    | .ok (h', spec, saw) =>
+      let st' := { st with hold := h', spec := spec }
+      (st', "ok " ++ sigDump st.fam h'.sig ++ sawSuffix saw ++ specSuffix st')
     | .error f => ({ st with dead := true }, "fault:" ++ f.name)
   | none =>
   match t with
   | ["call", s, i, a] =>
     match s.toNat?, i.toNat?, a.toNat? with
     | some s, some i, some a =>
-      if s < maxLists ∧ st.sig.store.live (.head s) ∧ i < 1000 ∧ a < 1000 then (st, "ok " ++ callStr st.sig s i a) else (st, "bad-op")
+      if s < maxLists ∧ st.store.live (.head s) ∧ !famVoid (famOf st s) ∧ i < 1000 ∧ a < 1000 then (st, "ok " ++ callStr st.sig s i a) else (st, "bad-op")
     | _, _, _ => (st, "bad-op")
+  | ["vcall", s, a] =>
+    match s.toNat?, a.toNat? with
+    | some s, some a =>
+      if s < maxLists ∧ st.store.live (.head s) ∧ famVoid (famOf st s) ∧ a < 1000 then (st, "ok " ++ vcallStr st.sig s) else (st, "bad-op")
+    | _, _ => (st, "bad-op")
   | _ => (st, "bad-op")
 
-def main : IO Unit := Proto.runState ({} : St) handle
+/-- the action table of an `rcall`, with the unregister id dropped where the signal's base has none -/
+def actOf (st : St) (f : Nat) : Hold.Act :=
+  match (st.acts.find? (·.1 == f)).map (·.2) with
+  | some [1, o] => .reset o
+  | some [2, h, s, f2, u] => .connect h s f2 (if famUnreg (famOf st s) then some u else none)
+  | _ => .none
+
+def handleAct (st : St) (t : List String) : Option (Option St) :=
+  let setA := fun (f : Nat) (a : List Nat) => some (some { st with acts := (f, a) :: st.acts.filter (·.1 != f) })
+  match t with
+  | ["AN", f] => match f.toNat? with
+    | some f => if f < 100 then setA f [0] else some none
+    | none => some none
+  | ["AR", f, h] => match f.toNat?, h.toNat? with
+    | some f, some h => if f < 100 ∧ h < maxElems then setA f [1, h] else some none
+    | _, _ => some none
+  | ["AK", f, c] => match f.toNat?, c.toNat? with
+    | some f, some c => if f < 100 ∧ c < maxConts then setA f [1, 16 + c] else some none
+    | _, _ => some none
+  | ["AC", f, h, s, f2, u] => match f.toNat?, h.toNat?, s.toNat?, f2.toNat?, u.toNat? with
+    | some f, some h, some s, some f2, some u =>
+      if f < 100 ∧ h < maxElems ∧ s < maxLists ∧ f2 < 100 ∧ u < 64 then setA f [2, h, s, f2, u] else some none
+    | _, _, _, _, _ => some none
+  | _ => none
+
+def handleRcall (st : St) (s init arg : Nat) (isVoid : Bool) : St × String :=
+  if !(s < maxLists ∧ st.store.live (.head s) ∧ famVoid (famOf st s) == isVoid ∧ init < 1000 ∧ arg < 1000) then (st, "bad-op") else
+  match Hold.rcall (actOf st) cbFn combFn isVoid st.hold s walkCap init arg with
+  | .ok r =>
+    let st' := { st with hold := r.st, spec := r.trace.foldl advanceSpec st.spec }
+    let res := if isVoid then "v" else toString r.acc
+    (st', s!"ok {idsStr r.log}:{res} " ++ sigDump st.fam r.st.sig ++ specSuffix st')
+  | .error .fuel => ({ st with dead := true }, "ok overrun")
+  | .error .emptyDeref => (st, "ok nocomb")
+  | .error f => ({ st with dead := true }, "fault:" ++ f.name)
+
+def tmpList : Nat := 7
+def tmpElem : Nat := 15
+
+/-- `std::swap` of two lists / elements / signals: the operations the generic `std::swap` performs, in order -/
+def parseSwap (t : List String) : Option (List String × List (List String)) :=
+  match t with
+  | ["LS", k, k2] => some ([k, k2], [["LM", "7", k], ["LA", k, k2], ["LA", k2, "7"], ["LD", "7"]])
+  | ["ES", a, b] => some ([a, b], [["M", "15", a], ["A", a, b], ["A", b, "15"], ["d", "15"]])
+  | ["SS", s, s2] => some ([s, s2], [["SM", "7", s], ["SA", s, s2], ["SA", s2, "7"], ["SD", "7"]])
+  | _ => none
+
+def handle2 (st : St) (t : List String) : St × String :=
+  match parseSwap t with
+  | some (args, steps) =>
+    -- the reserved ids may not be named by the caller
+    let lim := if t.head? == some "ES" then tmpElem else tmpList
+    if st.dead then (st, "dead") else
+    if !(args.all fun a => match a.toNat? with | some n => n < lim | none => false) then (st, "bad-op") else
+    let r := steps.foldl (fun (acc : St × String) step =>
+      if acc.2 == "bad-op" || acc.2.startsWith "fault" then acc else handle acc.1 step) (st, "")
+    if r.2 == "bad-op" then (st, "bad-op") else r
+  | none =>
+  match handleAct st t with
+  | some none => (st, "bad-op")
+  | some (some st') => (st', "ok")
+  | none =>
+  match t with
+  | ["rcall", s, i, a] =>
+    match s.toNat?, i.toNat?, a.toNat? with
+    | some s, some i, some a => if st.dead then (st, "dead") else handleRcall st s i a false
+    | _, _, _ => (st, "bad-op")
+  | ["rvcall", s, a] =>
+    match s.toNat?, a.toNat? with
+    | some s, some a => if st.dead then (st, "dead") else handleRcall st s 0 a true
+    | _, _ => (st, "bad-op")
+  | _ => handle st t
+
+def main : IO Unit := Proto.runState ({} : St) handle2
 
 end Fcppt.C11.Drv
